@@ -51,21 +51,14 @@ Section Spec.
     objective_gen__x__raises = tt /\ objective_gen__z__raises = tt.
   Proof. repeat split. Qed.
 
-  (** Full statement (REFUTED on the unchanged tree, Findings/C11_residual_arg.v):
-        forall s x, norm_primal_residual_gen__x s x = primal_residual_doc s x.
-      What holds: the value is the documented expression at the CURRENT iterate, whatever
-      argument is passed. *)
-  Theorem primal_residual_current : forall s,
-    norm_primal_residual_gen__none s = primal_residual_doc s (la_x s).
-  Proof. reflexivity. Qed.
-  Theorem primal_residual_arg_restricted : forall s x, x = la_x s ->
-    norm_primal_residual_gen__x s x = primal_residual_doc s x.
-  Proof. intros s x ->. reflexivity. Qed.
-  Theorem primal_residual_arg_ignored : forall s x,
-    norm_primal_residual_gen__x s x = primal_residual_doc s (la_x s).
-  Proof. reflexivity. Qed.
+  (** norm_primal_residual(): the documented expression at the current iterate;
+      norm_primal_residual(x): at the argument, for EVERY x (repaired by /repo 51ad458). *)
+  Theorem primal_residual_follows_doc : forall s,
+    norm_primal_residual_gen__none s = primal_residual_doc s (la_x s) /\
+    (forall x, norm_primal_residual_gen__x s x = primal_residual_doc s x).
+  Proof. split; reflexivity. Qed.
 
-  (** Full statement (REFUTED, Findings/C11_residual_arg.v): norm_dual_residual_gen s = dual_residual_doc s.
+  (** Full statement (REFUTED, Findings/C11_ladmm_dual_residual.v): norm_dual_residual_gen s = dual_residual_doc s.
       It holds when C^H preserves the norm of z - z_old (e.g. C = I). *)
   Theorem dual_residual_is : forall s, norm_dual_residual_gen s = dual_residual_impl s.
   Proof. reflexivity. Qed.
